@@ -479,6 +479,12 @@ def check_C08(tr):
                 if not is_close or (actor and [s for s in was_open if s[2] != actor[1]]):
                     out.append(Finding("C08", "a mailbox with an open side is removed only by its last close", st.i,
                                        {"mailbox": (a, mb), "open_sides": was_open, "op": op["op"]}))
+        if op["op"] == "recv" and op["msg"].get("type") == "add" and op["c"] in st.held_pre and \
+                st.err(op["c"]) == "must open mailbox before adding":
+            # by the history this connection opened the mailbox, never closed it, and the mailbox
+            # still exists: somebody else's close took its access away
+            out.append(Finding("C08", "one side's close never removes the other side's access", st.i,
+                               {"connection": op["c"], "mailbox": st.held_pre[op["c"]]}))
         if op["op"] != "recv" or op["msg"].get("type") != "close":
             continue
         c, m = op["c"], op["msg"]
